@@ -1447,8 +1447,10 @@ def union_model_docs() -> list[tuple[str, dict]]:
     the union decoder and encoder differ per kind and per enum style."""
     R = lambda n: {"$ref": f"#/components/schemas/{n}"}  # noqa: E731
     kinds = {"ma": R("Ua"), "mb": R("Ub"), "lm": {"type": "array", "items": R("Ua")}, "ls": {"type": "array", "items": {"type": "string"}}, "dt": {"type": "string", "format": "date-time"}, "i": {"type": "integer"},
-             "b": {"type": "boolean"}, "e": R("Ue"), "u": {"type": "string", "format": "uuid"}, "ie": R("Uie"), "iei": {"type": "integer", "enum": [7, 8]}, "ei": {"type": "string", "enum": ["p", "q"]}, "s": {"type": "string"}}
-    combos = [("ie", "ma"), ("ma", "ie"), ("ie", "e"), ("e", "ie"), ("ie", "mb", "ma"), ("iei", "ma"), ("ei", "ma"), ("ei", "iei"), ("ie", "lm"), ("e", "lm"), ("ie", "ls"), ("ma", "lm"), ("lm", "i"), ("dt", "i"), ("i", "b"), ("e", "i"),
+             "b": {"type": "boolean"}, "e": R("Ue"), "u": {"type": "string", "format": "uuid"}, "ie": R("Uie"), "iei": {"type": "integer", "enum": [7, 8]}, "ei": {"type": "string", "enum": ["p", "q"]}, "s": {"type": "string"},
+             "mu": R("Uu"), "mi": R("Ui"), "md": R("Ud"), "mn": R("Un")}
+    # (mu / md / mn first: the earlier member's decoder meets a value of another JSON type under the same key and fails in its own way - UUID(5), isoparse(5), Ua.from_dict(5))
+    combos = [("mu", "mi"), ("md", "mi"), ("mn", "mi"), ("mu", "md", "mi"), ("ie", "ma"), ("ma", "ie"), ("ie", "e"), ("e", "ie"), ("ie", "mb", "ma"), ("iei", "ma"), ("ei", "ma"), ("ei", "iei"), ("ie", "lm"), ("e", "lm"), ("ie", "ls"), ("ma", "lm"), ("lm", "i"), ("dt", "i"), ("i", "b"), ("e", "i"),
               ("u", "lm"), ("ma", "mb"), ("mb", "ma"), ("ie", "dt"), ("ie", "s"), ("e", "ma", "i"), ("ie", "e", "ma")]
     out = []
     for version in ("3.0.3", "3.1.0"):
@@ -1456,7 +1458,9 @@ def union_model_docs() -> list[tuple[str, dict]]:
             d = base_doc(version, f"Union models {kw}")
             S = {"Ua": {"type": "object", "required": ["a"], "properties": {"a": {"type": "string"}, "n": {"type": "integer"}}, "additionalProperties": False},
                  "Ub": {"type": "object", "required": ["b"], "properties": {"b": {"type": "integer"}, "when": {"type": "string", "format": "date"}}, "additionalProperties": False},
-                 "Ue": {"type": "string", "enum": ["x", "y"]}, "Uie": {"type": "integer", "enum": [10, 20, 0]}}
+                 "Ue": {"type": "string", "enum": ["x", "y"]}, "Uie": {"type": "integer", "enum": [10, 20, 0]},
+                 "Uu": {"type": "object", "required": ["id"], "properties": {"id": {"type": "string", "format": "uuid"}}}, "Ui": {"type": "object", "required": ["id"], "properties": {"id": {"type": "integer"}}},
+                 "Ud": {"type": "object", "required": ["id"], "properties": {"id": {"type": "string", "format": "date-time"}}}, "Un": {"type": "object", "required": ["id"], "properties": {"id": R("Ua")}}}
             for ci, combo in enumerate(combos):
                 props, req = {}, []
                 for nul in (False, True):
@@ -1482,15 +1486,18 @@ def union_io_docs() -> list[tuple[str, dict]]:
     R = lambda n: {"$ref": f"#/components/schemas/{n}"}  # noqa: E731
     out = []
     kinds = {"ma": R("Ua"), "mb": R("Ub"), "lm": {"type": "array", "items": R("Ua")}, "ls": {"type": "array", "items": {"type": "string"}}, "dt": {"type": "string", "format": "date-time"}, "i": {"type": "integer"},
-             "b": {"type": "boolean"}, "e": R("Ue"), "u": {"type": "string", "format": "uuid"}, "ie": R("Uie")}
+             "b": {"type": "boolean"}, "e": R("Ue"), "u": {"type": "string", "format": "uuid"}, "ie": R("Uie"), "mu": R("Uu"), "mi": R("Ui"), "md": R("Ud"), "mn": R("Un")}
     # pairs first-match decoding separates by runtime type or by a required key (others are the listed first-match findings)
-    combos = [("ma", "lm"), ("lm", "ma"), ("ma", "i"), ("i", "ma"), ("ma", "mb"), ("mb", "ma"), ("lm", "ls"), ("ls", "i"), ("dt", "i"), ("i", "b"), ("e", "i"), ("ie", "ma"), ("u", "lm"), ("ma", "lm", "i"), ("lm", "e", "mb"), ("i", "ls", "ma"), ("dt", "ma", "b")]
+    combos = [("ma", "lm"), ("lm", "ma"), ("ma", "i"), ("i", "ma"), ("ma", "mb"), ("mb", "ma"), ("lm", "ls"), ("ls", "i"), ("dt", "i"), ("i", "b"), ("e", "i"), ("ie", "ma"), ("u", "lm"), ("ma", "lm", "i"), ("lm", "e", "mb"), ("i", "ls", "ma"), ("dt", "ma", "b"),
+              ("mu", "mi"), ("md", "mi"), ("mn", "mi"), ("mu", "md", "mi")]
     for version in ("3.0.3", "3.1.0"):
         for kw in ("oneOf", "anyOf"):
             d = base_doc(version, f"Union IO {kw}")
             d["components"]["schemas"] = {"Ua": {"type": "object", "required": ["a"], "properties": {"a": {"type": "string"}, "n": {"type": "integer"}}, "additionalProperties": False},
                                           "Ub": {"type": "object", "required": ["b"], "properties": {"b": {"type": "integer"}, "when": {"type": "string", "format": "date"}}, "additionalProperties": False},
-                                          "Ue": {"type": "string", "enum": ["x", "y"]}, "Uie": {"type": "integer", "enum": [10, 20]}}
+                                          "Ue": {"type": "string", "enum": ["x", "y"]}, "Uie": {"type": "integer", "enum": [10, 20]},
+                                          "Uu": {"type": "object", "required": ["id"], "properties": {"id": {"type": "string", "format": "uuid"}}}, "Ui": {"type": "object", "required": ["id"], "properties": {"id": {"type": "integer"}}},
+                                          "Ud": {"type": "object", "required": ["id"], "properties": {"id": {"type": "string", "format": "date-time"}}}, "Un": {"type": "object", "required": ["id"], "properties": {"id": R("Ua")}}}
             d["paths"] = {}
             for ci, combo in enumerate(combos):
                 for nul in (False, True):
